@@ -119,6 +119,31 @@ class ExtractionFailed(Exception):
     pass
 
 
+def fixture(name):
+    """Facts of a reference fixture crate under /verif/fixtures/<name>, extracted with the same driver (cached by content)."""
+    fdir = os.path.join(VERIF, "fixtures", name)
+    th, _ = tree_hash(fdir)
+    out = os.path.join(CACHE, "fixtures", f"{name}-{th}")
+    done = os.path.join(out, "DONE")
+    if not os.path.exists(done):
+        with open(os.path.join(CACHE, "extract.lock"), "w") as lk:
+            fcntl.flock(lk, fcntl.LOCK_EX)
+            if not os.path.exists(done):
+                ensure_driver()
+                shutil.rmtree(out, ignore_errors=True)
+                os.makedirs(out)
+                r = subprocess.run([os.path.join(VERIF, "driver", "run.sh"), fdir, out, "F", "-"],
+                                   stdout=subprocess.PIPE, stderr=subprocess.STDOUT, text=True)
+                if r.returncode != 0:
+                    print(r.stdout[-3000:])
+                    raise ExtractionFailed(f"fixture {name} does not compile")
+                open(done, "w").write("ok\n")
+    files = [f for f in os.listdir(out) if f.endswith(".json")]
+    with open(os.path.join(out, files[0])) as fh:
+        d = json.load(fh)
+    return {h["path"]: h for h in d["hir"]}
+
+
 def prune_cache(keep, max_trees=6):
     base = os.path.join(CACHE, "facts")
     try:
